@@ -1,6 +1,7 @@
 import PycModel.Properties.Tables
 import PycModel.Proofs.ClimbConcrete
 import PycModel.Proofs.OperandId
+import PycModel.Proofs.ParenExpr
 /-!
 # C02 — expression ASTs follow C precedence, associativity and operator binding
 
@@ -13,7 +14,8 @@ Proved here, for trees of any size and depth: the **binary-operator layer** of t
 grammar (`E_m ::= E_m op_m E_{m+1} | E_{m+1}`, ten levels, all left-associative: 6.5.5-6.5.14),
 with the level table `binPrec` that `Tables.impl_prec_is_c99` ties to `_BINARY_PRECEDENCE` of
 `c_parser.py` and to C99.  Operands (cast-expressions) are abstract: `OperandSpec` is the
-hypothesis that the operand parser parses each operand.
+hypothesis that the operand parser parses each operand (with the fuel `fuel0` bounds); it is
+discharged below for identifiers and parenthesised expressions.
 -/
 namespace PycModel.C02
 open PycModel PycModel.Climb PycModel.ClimbSim PycModel.ClimbConcrete PycModel.View
@@ -21,23 +23,24 @@ open PycModel PycModel.Climb PycModel.ClimbSim PycModel.ClimbConcrete PycModel.V
 /-- **Binary operators group exactly as the C grammar says.** In every parser state that sees the
 in-order tokens of a tree `t` of the level-`m` expression nonterminal followed by a continuation
 `k` that does not start with an operand or a binary operator of level `m` or tighter,
-`_parse_binary_expression(min_prec = m)` (model: `run F (.binaryExpression m none)`, any sufficient
-fuel) returns `BinaryOp` nodes nested exactly like `t` - tighter levels deeper, equal levels to
+`_parse_binary_expression(min_prec = m)` (model: `run F (.binaryExpression m none)`, any fuel
+>= 2 * nodes + operand fuel: linear) returns `BinaryOp` nodes nested exactly like `t` - tighter levels deeper, equal levels to
 the left - each at the coordinate of its left operand, and leaves exactly `k` unread.
 The stream behaviour of `peek` / `advance` is proved (`Proofs/TokenView.lean`), not assumed. -/
 theorem binary_operators_group_as_the_grammar_says
-    (Op : Nat → Val → List Tk → Prop) (Follow : List Tk → Prop) (fuel0 : Nat)
-    (hop : OperandSpec Op Follow fuel0)
+    (Op : Nat → Val → List Tk → Nat → Prop) (Follow : List Tk → Prop) (fuel0 N : Nat)
+    (hop : OperandSpec Op Follow)
     (t : BT) (m : Nat) (hwf : WF binPrec m t) (hn : Nodes t)
     (k : List PT) (hk : StopAt binPrec m k) (hkt : ∀ x ∈ k, PTok' x)
-    (s : PState) (hs : SeesPT Op Follow s (t.toks ++ k)) :
-    ∃ F0, ∀ F, F0 ≤ F → ∃ s', run F (.binaryExpression m none) s = .ok (toVal t) s' ∧ SeesPT Op Follow s' k :=
-  binary_expression_parses_grammar_tree (iface Op Follow fuel0 hop) t m hwf hn k hk hkt s hs
+    (s : PState) (hs : SeesPT Op Follow fuel0 N s (t.toks ++ k)) :
+    ∀ F, 2 * t.size + fuel0 ≤ F →
+      ∃ s', run F (.binaryExpression m none) s = .ok (toVal t) s' ∧ SeesPT Op Follow fuel0 N s' k :=
+  binary_expression_parses_grammar_tree (iface Op Follow fuel0 N hop) t m hwf hn k hk hkt s hs
 
 /-- the pure algorithm (mirror of the two nested loops) returns the grammar's tree on every
 well-formed token list, for every sufficient fuel -/
 theorem precedence_climbing_correct (t : BT) (m : Nat) (h : WF binPrec m t) (k : List PT) (hk : StopAt binPrec m k) :
-    ∃ f0, ∀ f, f0 ≤ f → climb binPrec f m none (t.toks ++ k) = some (t, k) :=
+    ∀ f, 2 * t.size ≤ f → climb binPrec f m none (t.toks ++ k) = some (t, k) :=
   climb_correct binPrec t m h k hk
 
 /-- **"the unique tree the C grammar assigns"**: two derivations of the same token list from the
@@ -58,41 +61,49 @@ example (a b c d e : Val) :
   exact .node 9 9 _ _ _ _ (by decide) (by decide) (.leaf _ _) (.leaf _ _)
 
 
-/-! ## the operand hypothesis is satisfiable: identifiers -/
-open PycModel.OperandId
+/-! ## end to end: identifiers, parentheses, binary operators -/
+open PycModel.OperandId PycModel.ParenExpr
 
-/-- **End to end.** Expressions built from identifiers and binary operators, of any size and
-nesting, parse to exactly the tree the grammar derives - from any state that sees them followed
-by a token that is neither a binary nor a postfix operator; no hypothesis about operands is left.
-(`OperandId.identifier_expressions_parse`, restated where the property theorems live.) -/
-theorem identifier_expressions_parse_as_the_grammar_says (e : IT) (m : Nat) (s : PState)
-    (hwf : WF binPrec m (e.toBT s.idx)) (stop : Tk) (hstop1 : binPrec stop.1 = none)
-    (hstop2 : stop.1 ∉ postfixStarters) (rest : List Tk) (hs : SeesT s (e.flat ++ stop :: rest)) :
-    ∃ F0, ∀ F, F0 ≤ F → ∃ s', run F (.binaryExpression m none) s = .ok (toVal (e.toBT s.idx)) s' ∧
-      SeesT s' (stop :: rest) :=
-  identifier_expressions_parse e m s hwf stop hstop1 hstop2 rest hs
+/-- **End to end, nothing assumed.** Every expression `e` of the language
+`E ::= identifier | ( E ) | E binop E` - any size, any nesting of parentheses - that the C grammar
+derives at level `m`, seen by the parser in any state and followed by a token that is neither a
+binary nor a postfix operator, is parsed by `_parse_binary_expression(m)` into exactly the tree the
+grammar derives (`E.val`: `BinaryOp` nodes nested by level and left associativity, parentheses
+transparent, every `ID` at its own token, every `BinaryOp` at its left operand's coordinate),
+consuming exactly the tokens of `e`, with fuel `E.fuel e <= 9 * (number of tokens)`. -/
+theorem expressions_parse_as_the_grammar_says (e : E) (m : Nat) (s : PState) (stop : Tk) (rest : List Tk)
+    (hwf : WFE m e) (hstop1 : binPrec stop.1 = none) (hstop2 : stop.1 ∉ postfixStarters)
+    (hs : SeesT s (e.flat ++ stop :: rest)) :
+    ∀ F, e.fuel ≤ F → ∃ s', run F (.binaryExpression m none) s = .ok (e.val s.idx) s' ∧
+      SeesT s' (stop :: rest) ∧ s'.idx = s.idx + e.ntoks :=
+  (parse_ok e).1 m s stop rest hwf hstop1 hstop2 hs
 
-/-- non-vacuity of the end-to-end statement: `a - b * c - d == e ;` from the initial state -/
-example : ∃ F0, ∀ F, F0 ≤ F → ∃ s',
+/-- non-vacuity: `(a - b) * (c - (d)) == e ;` from the initial state -/
+example : ∀ F, 90 ≤ F → ∃ s',
     run F (.binaryExpression 0 none)
-      (initState ([("ID", "a"), ("MINUS", "-"), ("ID", "b"), ("TIMES", "*"), ("ID", "c"), ("MINUS", "-"),
-                   ("ID", "d"), ("EQ", "=="), ("ID", "e"), ("SEMI", ";")].map (fun t => SEv.tok t.1 t.2) ++ [.eof]))
-      = .ok (mk .BinaryOp (some ⟨"", 0, some 1⟩) [.str "==",
-              mk .BinaryOp (some ⟨"", 0, some 1⟩) [.str "-",
-                mk .BinaryOp (some ⟨"", 0, some 1⟩) [.str "-", idNode 0 "a",
-                  mk .BinaryOp (some ⟨"", 2, some 3⟩) [.str "*", idNode 2 "b", idNode 4 "c"]],
-                idNode 6 "d"],
-              idNode 8 "e"]) s' ∧ SeesT s' [("SEMI", ";")] := by
-  let e : IT := .node "EQ" "=="
-    (.node "MINUS" "-" (.node "MINUS" "-" (.leaf "a") (.node "TIMES" "*" (.leaf "b") (.leaf "c"))) (.leaf "d"))
-    (.leaf "e")
-  have hwf : WF binPrec 0 (e.toBT 0) := by
-    refine .node 0 5 _ _ _ _ (by decide) (by decide) ?_ (.leaf _ _)
-    refine .node 5 8 _ _ _ _ (by decide) (by decide) ?_ (.leaf _ _)
-    refine .node 8 8 _ _ _ _ (by decide) (by decide) (.leaf _ _) ?_
-    exact .node 9 9 _ _ _ _ (by decide) (by decide) (.leaf _ _) (.leaf _ _)
-  have hs := seesT_init [("ID", "a"), ("MINUS", "-"), ("ID", "b"), ("TIMES", "*"), ("ID", "c"), ("MINUS", "-"),
-    ("ID", "d"), ("EQ", "=="), ("ID", "e"), ("SEMI", ";")] (by decide)
-  exact identifier_expressions_parse e 0 _ hwf ("SEMI", ";") (by decide) (by decide) [] hs
+      (initState ([("LPAREN", "("), ("ID", "a"), ("MINUS", "-"), ("ID", "b"), ("RPAREN", ")"), ("TIMES", "*"),
+                   ("LPAREN", "("), ("ID", "c"), ("MINUS", "-"), ("LPAREN", "("), ("ID", "d"), ("RPAREN", ")"),
+                   ("RPAREN", ")"), ("EQ", "=="), ("ID", "e"), ("SEMI", ";")].map (fun t => SEv.tok t.1 t.2) ++ [.eof]))
+      = .ok (mk .BinaryOp (some ⟨"", 1, some 2⟩) [.str "==",
+              mk .BinaryOp (some ⟨"", 1, some 2⟩) [.str "*",
+                mk .BinaryOp (some ⟨"", 1, some 2⟩) [.str "-", ParenExpr.idNode 1 "a", ParenExpr.idNode 3 "b"],
+                mk .BinaryOp (some ⟨"", 7, some 8⟩) [.str "-", ParenExpr.idNode 7 "c", ParenExpr.idNode 10 "d"]],
+              ParenExpr.idNode 14 "e"]) s' ∧ SeesT s' [("SEMI", ";")] := by
+  let e : E := .bin "EQ" "=="
+    (.bin "TIMES" "*" (.paren (.bin "MINUS" "-" (.id "a") (.id "b")))
+                      (.paren (.bin "MINUS" "-" (.id "c") (.paren (.id "d")))))
+    (.id "e")
+  have hwf : WFE 0 e := by
+    refine .bin 0 5 _ _ _ _ (by decide) (by decide) ?_ (.id _ _)
+    refine .bin 5 9 _ _ _ _ (by decide) (by decide) (.paren _ _ ?_) (.paren _ _ ?_)
+    · exact .bin 0 8 _ _ _ _ (by decide) (by decide) (.id _ _) (.id _ _)
+    · exact .bin 0 8 _ _ _ _ (by decide) (by decide) (.id _ _) (.paren _ _ (.id _ _))
+  have hs := ParenExpr.seesT_init [("LPAREN", "("), ("ID", "a"), ("MINUS", "-"), ("ID", "b"), ("RPAREN", ")"), ("TIMES", "*"),
+    ("LPAREN", "("), ("ID", "c"), ("MINUS", "-"), ("LPAREN", "("), ("ID", "d"), ("RPAREN", ")"),
+    ("RPAREN", ")"), ("EQ", "=="), ("ID", "e"), ("SEMI", ";")] (by decide)
+  intro F hF
+  obtain ⟨s', hr, hs', _⟩ := expressions_parse_as_the_grammar_says e 0 _ ("SEMI", ";") [] hwf (by decide) (by decide) hs F
+    (Nat.le_trans (by decide) hF)
+  exact ⟨s', hr, hs'⟩
 
 end PycModel.C02
